@@ -40,6 +40,8 @@ type Shared struct {
 	stop     bool
 	deadline time.Time
 	lockEdges map[string]lockEdge
+	writeGates map[string]map[string]bool
+	serialFns  map[string]bool
 }
 
 type Options struct {
